@@ -30,12 +30,15 @@ RECURSIVE SumSet(_, _)
 SumSet(f, S) == IF S = {} THEN 0 ELSE LET x == CHOOSE y \in S : TRUE IN f[x] + SumSet(f, S \ {x})
 
 (* <<q, r>> with a*b = q*c + r, 0 <= r < c, never forming a*b (a,b >= 0, c > 0, 2c+b < 2^31) *)
-RECURSIVE MulDivQR(_, _, _)
-MulDivQR(a, b, c) ==
+RECURSIVE MulDivSlow(_, _, _)
+MulDivSlow(a, b, c) ==
   IF a = 0 THEN <<0, 0>>
-  ELSE LET h == MulDivQR(a \div 2, b, c)
+  ELSE LET h == MulDivSlow(a \div 2, b, c)
            t == 2 * h[2] + (a % 2) * b
        IN <<2 * h[1] + (t \div c), t % c>>
+MulDivQR(a, b, c) ==
+  IF b = 0 \/ a <= 2147483647 \div b THEN <<(a * b) \div c, (a * b) % c>>     \* the product fits: compute directly
+  ELSE MulDivSlow(a, b, c)
 MulDivFloor(a, b, c) == MulDivQR(a, b, c)[1]
 
 RangeSet(s) == {s[i] : i \in DOMAIN s}
